@@ -260,6 +260,17 @@ impl Transform {
         }
 
         while let Some(template) = iter.next() {
+            // An ellipsis repeats the preceding subtemplate once per match of a
+            // pattern variable bound under an ellipsis; without such a variable
+            // the expansion would never end.
+            if template != ellipsis
+                && iter.peek() == Some(&ellipsis)
+                && !Self::has_ellipsis_variable(template, pattern, ellipsis)
+            {
+                return Err(InvalidSyntax(
+                    "ellipses must follow a template with an ellipsis pattern variable".into(),
+                ));
+            }
             match template {
                 Cell::Pair(_, _) => Self::check_template_syntax(template, pattern, ellipsis)?,
                 Cell::Symbol(_) => {
@@ -280,6 +291,30 @@ impl Transform {
             }
         }
         Ok(())
+    }
+
+    /// Has Ellipsis Variable
+    ///
+    /// Does the template contain a pattern variable that was bound under an
+    /// ellipsis in the pattern and is not itself consumed by a nested
+    /// ellipsis of the template?
+    fn has_ellipsis_variable(template: &Cell, pattern: &Pattern, ellipsis: &Cell) -> bool {
+        match template {
+            Cell::Symbol(_) => pattern.is_expanded_variable(template),
+            Cell::Pair(_, _) => {
+                let mut iter = template.iter().peekable();
+                while let Some(it) = iter.next() {
+                    if it == ellipsis || iter.peek() == Some(&ellipsis) {
+                        continue;
+                    }
+                    if Self::has_ellipsis_variable(it, pattern, ellipsis) {
+                        return true;
+                    }
+                }
+                false
+            }
+            _ => false,
+        }
     }
 
     /// Transform
